@@ -15,3 +15,19 @@ CASES = [
     dict(id='c17-eq-reordered-branches', prop='C17', file=T, expect=None,
          old="         os << tiWord;\n         currLength += tiWord.length();\n      } // end if", new="         currLength += tiWord.length();\n         os << tiWord;\n      } // end if"),
 ]
+
+TBH = 'src/celma/format/text_block.hpp'
+CASES += [
+    dict(id='c17-indent-fill-dot', prop='C17', file=T, expect='R2',
+         old="   mIndentSpaces( mIndent, ' ')", new="   mIndentSpaces( mIndent, '.')"),
+    dict(id='c17-eq-indent-helper', prop='C17', expect=None,
+         edits=[(TBH, "   void formatLine( std::ostream& os, const std::string& line);",
+                 "   void formatLine( std::ostream& os, const std::string& line);\n   void writeIndent( std::ostream& os) const { os << mIndentSpaces; }"),
+                (T, "         os << std::endl << mIndentSpaces;\n      } // end if\n\n      formatLine( os, tiNL);",
+                 "         os << std::endl;\n         writeIndent( os);\n      } // end if\n\n      formatLine( os, tiNL);")]),
+    dict(id='c17-helper-forgets-indent-on-a-path', prop='C17', expect='R2',
+         edits=[(TBH, "   void formatLine( std::ostream& os, const std::string& line);",
+                 "   void formatLine( std::ostream& os, const std::string& line);\n   void writeIndent( std::ostream& os) const { if (mIndent > 1) os << mIndentSpaces; }"),
+                (T, "         os << std::endl << mIndentSpaces;\n      } // end if\n\n      formatLine( os, tiNL);",
+                 "         os << std::endl;\n         writeIndent( os);\n      } // end if\n\n      formatLine( os, tiNL);")]),
+]
